@@ -95,7 +95,7 @@ fn main() {
             p.max_workers = Some(1);
             p.max_shrink_iters = 8;
             parts.push(p);
-            let mut p = make_part("proc-accept-failure", "PROC", if cli.thorough { 60 } else { 8 }, proc20::fd_strategy, |_| (), |_, c| proc20::fd_test(c));
+            let mut p = make_part("proc-accept-failure", "PROC", if cli.thorough { 120 } else { 24 }, proc20::fd_strategy, |_| (), |_, c| proc20::fd_test(c));
             p.max_workers = Some(2);
             p.max_shrink_iters = 4;
             parts.push(p);
